@@ -221,6 +221,38 @@ def run(facts, rep, ctx):
         rep.ok(R1, {"reader_set_header": "label at the cursor, then the main flags"})
     else:
         rep.violation(R1, rd.name, "set-header", "a set starts with %s (specified: label, main flags)" % first, rw)
+    # ---- every set in the data is read: the set loop is left only by its own condition or by an error -------
+    import c20
+    okb = set(c20.ok_blocks(rd))
+    outer = None
+    for lp in for_loops(rd):
+        if lp["kind"] == "while" and (outer is None or len(lp["blocks"]) > len(outer["blocks"])):
+            outer = lp
+    if outer is None:
+        rep.inconc(R1, "reader set loop not found")
+    else:
+        head_exit_sources = set()
+        early = []
+        cond_blocks = [outer["head"]] + [s_ for s_ in rd.succs(outer["head"]) if s_ in outer["blocks"]]
+        for u in outer["blocks"]:
+            for v in rd.succs(u):
+                if v in outer["blocks"]:
+                    continue
+                reach = rd.reachable_blocks(v)
+                if reach & okb:
+                    # a normal (non-error) exit
+                    t = rd.blocks[u]["term"]
+                    is_cond = t["k"] == "switch" and any(x[0] == "call" and x[1].endswith("::tell") for x in walk(rd.term_of_operand(t["d"])))
+                    if is_cond:
+                        head_exit_sources.add(u)
+                    else:
+                        early.append((u, t.get("line")))
+        if early:
+            rep.violation(R1, rd.name, "early-exit", "the set loop can be left from inside its body without an error (line %s): the remaining sets are silently dropped" % early[0][1], rw)
+        elif head_exit_sources:
+            rep.ok(R1, {"reader_loop": "left only when the cursor reaches the end of the data, or by an error"})
+        else:
+            rep.inconc(R1, "reader set loop exit not recognised")
     # ---- writer couplings -------------------------------------------------------------------------------
     cd = control_deps(wnv)
     names = {wnv.local_name(l): l for l in range(len(wnv.locals)) if wnv.is_atom(l)}
